@@ -15,6 +15,7 @@ from .. import hook, dexasm, javamini
 from .. import dalvik_gen as G
 from ..dexasm import Cls, Mth, Code
 
+LEVEL = 'translation_validation'
 FUNCS = ['androguard.decompiler.opcode_ins (INSTRUCTION_SET translations, Op table)', 'androguard.decompiler.instruction (expressions, get_used_vars, visit)',
          'androguard.decompiler.dataflow.register_propagation / dead_code_elimination / split_variables / place_declarations / build_def_use',
          'androguard.decompiler.control_flow.identify_structures', 'androguard.decompiler.graph.construct / simplify', 'androguard.decompiler.writer.Writer',
@@ -138,7 +139,8 @@ def job(jc, spec):
         if src.startswith('EXC '):
             jc.concrete_violation(dict(w, args=None, kind='exc'), label=label, what='decompiler raised: %s' % src[:160])
             continue
-        fid = None
+        fid = PROGRAM_FINDINGS.get((flavour, lo + i))
+        fid = fid if fid in jc.known else None
         if 'f%d' % i in rejected:
             stats['javac_rejected'] += 1
             fid = finding_for(rejected['f%d' % i])
@@ -150,7 +152,7 @@ def job(jc, spec):
             meth = javamini.parse_method(src)
         except (SyntaxError, IndexError, KeyError, ValueError) as e:
             import re as _re
-            decl = _re.search(r'\((?:int|long|byte|short|char|boolean) v\d', src) is not None
+            decl = _re.search(r'(?:\(|[^\s;{}(]\s+)(?:int|long|byte|short|char|boolean) v\d', src) is not None
             jc.add_witness('c21_decl_in_expr' if (decl and 'c21_decl_in_expr' in jc.known) else None, dict(w, args=None, kind='parse'),
                            label + ':parse', 'printed method cannot be parsed (%s)' % e)
             continue
@@ -216,6 +218,25 @@ def job(jc, spec):
                 continue
             raise
     jc.sample(dict(flavour=flavour, range=[lo, hi], **stats, example=srcs.get('f0', '')[:500]), limit=7)
+    return stats
+
+
+def _program_findings():
+    """recorded findings that are identified by corpus programs: {(flavour, index): finding id}"""
+    import json
+    out = {}
+    try:
+        k = json.load(open(os.path.join(os.path.dirname(os.path.dirname(os.path.dirname(os.path.abspath(__file__)))), 'known_findings.json')))
+        for f in k['findings']:
+            if f.get('status') == 'known' and f.get('property') == 'C21':
+                for fl, ix in f.get('programs', []):
+                    out[(fl, ix)] = f['id']
+    except Exception:
+        pass
+    return out
+
+
+PROGRAM_FINDINGS = _program_findings()
 
 
 def finding_for(msg):
@@ -252,7 +273,11 @@ def run(ctx):
     ctx.expect_reach(['programs'] + FLAVOURS)
     ctx.seed_for_jobs = ctx.seed
     ctx.diff_unhooked(sys.modules[__name__], [dict(flavour='ifs', lo=0, hi=6, seed=CORPUS_SEED), dict(flavour='mixed', lo=0, hi=6, seed=CORPUS_SEED)])
-    ctx.pmap(job, jobs)
+    res = [r for r in ctx.pmap(job, jobs) if r]
+    ctx.extra_cov['programs'] = sum(r['programs'] for r in res)
+    ctx.extra_cov['disagreements_checked'] = ctx.stats.obligations
+    ctx.extra_cov['explored_paths_of_the_pairs'] = sum(r['paths'] for r in res)
+    ctx.extra_cov['methods_rejected_by_javac'] = sum(r['javac_rejected'] for r in res)
 
 
 def concrete(c):
